@@ -141,6 +141,30 @@ class C05Bounded(Bounded):
                 escapes_backslash = bool(cfg["field_escape_pattern"].search("\\"))
                 if d != nm and (escapes_backslash or "\\" not in nm):
                     fail("field", f"field name {nm!r} rendered as {out!r} under config {ci}, which decodes to {d!r}", [nm, ci])
+        # indexing / slicing: the atoms of s[a:b] are the atoms of s from a to b (a literal character stays literal, a wildcard a wildcard)
+        for src in [t for t in strings if len(t) <= 4]:
+            x = SigmaString(src)
+            at = M.atoms_native(x.s)
+            n = len(at)
+            for a in list(range(-n - 1, n + 2)) + [None]:
+                for b in list(range(-n - 1, n + 2)) + [None]:
+                    ev += 1
+                    want = at[a:b]
+                    try:
+                        got = M.atoms_native(x[a:b].s)
+                    except IndexError:
+                        got = "IndexError"
+                    oob = (a is not None and (a < -n or a > n)) or (b is not None and (b < -n or b > n))
+                    if got != want and not (oob and got == "IndexError") and not (oob and got == at[max(a or 0, -n) if (a or 0) < 0 else a:b]):
+                        fail("getitem", f"SigmaString({src!r})[{a}:{b}] has atoms {got}, the atoms of the string from {a} to {b} are {want}", [src, a, b])
+            for i in range(-n, n):
+                ev += 1
+                try:
+                    got = M.atoms_native(x[i].s)
+                except IndexError:
+                    got = "IndexError"
+                if got != [at[i]]:
+                    fail("getitem", f"SigmaString({src!r})[{i}] has atoms {got}, the atom at {i} is {[at[i]]}", [src, i])
         # regular expressions: the escaped form, read back by the target (escape character + escaped sequence = that sequence), is the source
         def rx_dec(t, seqs, esc):
             out, i = "", 0
